@@ -62,19 +62,32 @@ def judgePolicyBlock (name : String) (arg : Nat) (body : List String) : List Str
   match Pol.ofName name arg with
   | none => ["viol policy/malformed-judge-input"]
   | some p0 =>
-    let rec pairs : List String → Option (List (POp × Option Key × List Key))
+    -- a history may end in `<call>` / `exc <Kind>`: the call raised instead of returning
+    let rec pairs : List String → Option (List (POp × Option Key × List Key) × Option POp)
       | a :: b :: rest =>
-        match parsePOp (toks a), parseObs (toks b), pairs rest with
-        | some (op, _), some (r, ks), some ps => some ((op, r, ks) :: ps)
+        if b.startsWith "exc" then (parsePOp (toks a)).map fun (op, _) => ([], some op)
+        else match parsePOp (toks a), parseObs (toks b), pairs rest with
+        | some (op, _), some (r, ks), some (ps, x) => some ((op, r, ks) :: ps, x)
         | _, _, _ => none
-      | [] => some []
+      | [] => some ([], none)
       | _ => none
-    match pairs body with
+    -- `after-clear i <answer>` / `fresh i <answer>`: the companion run of the clear law
+    let isCmp := fun (l : String) => l.startsWith "after-clear " || l.startsWith "fresh "
+    let rec cmps : List String → List (Nat × List String × List String)
+      | a :: b :: rest =>
+        match toks a, toks b with
+        | "after-clear" :: i :: x, "fresh" :: _ :: y => (natD i, x, y) :: cmps rest
+        | _, _ => cmps rest
+      | _ => []
+    match pairs (body.filter (!isCmp ·)) with
     | none => ["viol policy/malformed-judge-input"]
-    | some ps =>
-      match judgePolicy p0.kind {} 0 ps with
-      | none => ["ok"]
+    | some (ps, raised) =>
+      match judgePolicyExc p0.kind ps raised with
       | some (sig, i) => [s!"viol {sig} at-op {i}"]
+      | none =>
+        match judgeFresh (cmps (body.filter isCmp)) with
+        | none => ["ok"]
+        | some (sig, i) => [s!"viol {sig} at-op {i}"]
 
 
 /-! ### CachedStore -/
@@ -194,9 +207,13 @@ def judgeStoreBlock (name : String) (arg cap : Nat) (wt : Bool) (body : List Str
   let warm : Option WarmObs := body.findSome? fun l => match toks l with
     | "warmobs" :: ts => some ⟨kv ts "n", kv ts "warmed", kv ts "failed", kv ts "complete" == 1⟩
     | _ => none
+  -- `raised <op> <Kind>`: the operation raised instead of returning (judged last: the clauses on
+  -- what was observed before it come first)
+  let raised := body.any fun l => l.startsWith "raised "
   match judgeStore ⟨cap, wt, false, []⟩ sc.ops evs fin with
   | some sig => [s!"viol {sig}"]
   | none =>
+    if raised then ["viol store/op/raised"] else
     match sc.warm, warm with
     | some _, none => ["viol warmer/missing-observation"]
     | _, some w =>
